@@ -64,6 +64,16 @@ pub fn point(name: &'static str) {
 pub fn block_until(name: &'static str, g: Guard) {
   yield_with(name, Some(g));
 }
+/// Scheduling point in front of `m.lock()`: the calling thread is enabled only while the mutex is free, so another
+/// controlled thread may keep the guard across its own scheduling points (the code under test relies on exactly
+/// that mutual exclusion). Every `lock()` of such a mutex must be preceded by this.
+pub fn lock_point<T: Send + 'static>(name: &'static str, m: &Arc<Mutex<T>>) {
+  if !controlled() {
+    return;
+  }
+  let m2 = m.clone();
+  block_until(name, Box::new(move || m2.try_lock().is_ok()));
+}
 pub fn controlled() -> bool {
   ME.with(|m| m.get()).is_some()
 }
